@@ -304,7 +304,7 @@ fn run_case_classified<C: Check>(check: &C, case: &C::Case, known: &[KnownEntry]
     }
 }
 
-fn shard_main<C: Check>(check: &C, tier: Tier, seed: u64, shard: usize, nshards: usize, out: &Path, force_journal: bool) {
+fn shard_main<C: Check>(check: &C, tier: Tier, seed: u64, shard: usize, nshards: usize, out: &Path, force_journal: bool, resume_after: u64) {
     quiet_panics();
     let mut acc = Acc::default();
     let known = load_known(check.id());
@@ -326,11 +326,19 @@ fn shard_main<C: Check>(check: &C, tier: Tier, seed: u64, shard: usize, nshards:
         let isolate = check.isolate() || force_journal;
         let accref = RefCell::new(&mut acc);
         let first_failure: RefCell<Option<FailRec>> = RefCell::new(None);
+        let case_index = std::cell::Cell::new(0u64);
         let res = runner.run(&strat, |case| {
-            if isolate {
-                let _ = std::fs::write(&journal, serde_json::to_vec(&case).unwrap_or_default());
-            }
             let mut a = accref.borrow_mut();
+            if !a.frozen {
+                case_index.set(case_index.get() + 1);
+                if case_index.get() <= resume_after {
+                    // already executed (or blamed) in an earlier incarnation of this shard
+                    return Ok(());
+                }
+            }
+            if isolate {
+                let _ = std::fs::write(&journal, serde_json::to_vec(&json!({"index": case_index.get(), "case": case})).unwrap_or_default());
+            }
             match run_case_classified(check, &case, &known, &mut a, false) {
                 Ok(()) => Ok(()),
                 Err(f) => {
@@ -405,6 +413,8 @@ struct Args {
     replay: Option<PathBuf>,
     one: Option<PathBuf>,
     journal: bool,
+    /// skip (do not execute) the first n generated cases of the shard: resume after a case that killed the process
+    resume_after: u64,
 }
 
 fn parse_args(args: &[String]) -> Args {
@@ -418,6 +428,7 @@ fn parse_args(args: &[String]) -> Args {
         replay: None,
         one: None,
         journal: false,
+        resume_after: 0,
     };
     let mut i = 0;
     while i < args.len() {
@@ -440,6 +451,10 @@ fn parse_args(args: &[String]) -> Args {
                 i += 1;
             }
             "--journal" => a.journal = true,
+            "--resume-after" => {
+                a.resume_after = args[i + 1].parse().unwrap_or(0);
+                i += 1;
+            }
             "--one" => {
                 a.one = Some(PathBuf::from(&args[i + 1]));
                 i += 1;
@@ -641,7 +656,7 @@ fn write_replay(id: &str, rec: &FailRec) -> PathBuf {
 pub fn main_for<C: Check>(check: &C, args: &[String]) -> i32 {
     let a = parse_args(args);
     if let Some((i, k)) = a.shard {
-        shard_main(check, a.tier, seed_from_env(), i, k, a.out.as_deref().expect("--out"), a.journal);
+        shard_main(check, a.tier, seed_from_env(), i, k, a.out.as_deref().expect("--out"), a.journal, a.resume_after);
         return 0;
     }
     if let Some(p) = &a.one {
@@ -855,27 +870,87 @@ fn parent_main<C: Check>(check: &C, a: &Args, tmpdir: &Path) -> i32 {
                 }
             }
             None => {
-                // abnormal death: blame the journaled case if there is one
+                // abnormal death: blame the journaled case if there is one, then resume the shard behind it
                 let cur = out.with_extension("cur");
-                if let Some(case) = std::fs::read(&cur).ok().and_then(|b| serde_json::from_slice::<Value>(&b).ok()) {
-                    let rec = FailRec { case, signature: "abnormal-exit".into(), message: format!("shard child died ({st:?}) while executing this case; stderr tail: {}", err.lines().rev().take(6).collect::<Vec<_>>().join(" | ")) };
-                    // confirm by re-running the case alone
-                    let confirmed = eval_case(check, &rec.case, tmpdir).ok().and_then(|o| o.fail);
-                    match confirmed {
-                        Some(f) => {
-                            if known.iter().any(|k| k.status == "known" && k.signature == f.signature) {
-                                *known_seen.entry(f.signature.clone()).or_insert(0) += 1;
-                            } else {
-                                let reduced = reduce_case(check, rec.case.clone(), &f.signature, tmpdir, 120);
-                                let rec = FailRec { signature: f.signature.clone(), message: f.message.clone(), case: reduced };
-                                let p = write_replay(id, &rec);
-                                println!("shard {i}: child died; case confirmed failing alone [{}] {} (replay reduced by parent-side delta debugging)", f.signature, f.message);
-                                violations.push((p, f.signature));
+                let mut journal: Option<Value> = std::fs::read(&cur).ok().and_then(|b| serde_json::from_slice::<Value>(&b).ok());
+                if journal.is_some() {
+                    let mut attempts = 0;
+                    let mut st_now = format!("{st:?}");
+                    let mut err_now = err.clone();
+                    while let Some(j) = journal.take() {
+                        attempts += 1;
+                        let index = j.get("index").and_then(|v| v.as_u64()).unwrap_or(0);
+                        let case = j.get("case").cloned().unwrap_or(j.clone());
+                        // confirm by re-running the case alone
+                        let confirmed = eval_case(check, &case, tmpdir).ok().and_then(|o| o.fail);
+                        match confirmed {
+                            Some(f) => {
+                                if known.iter().any(|k| k.status == "known" && k.signature == f.signature) {
+                                    *known_seen.entry(f.signature.clone()).or_insert(0) += 1;
+                                } else if !violations.iter().any(|v| v.1 == f.signature) || violations.len() < 3 {
+                                    let reduced = reduce_case(check, case.clone(), &f.signature, tmpdir, 120);
+                                    let rec = FailRec { signature: f.signature.clone(), message: f.message.clone(), case: reduced };
+                                    let p = write_replay(id, &rec);
+                                    println!("shard {i}: child died ({st_now}); case #{index} confirmed failing alone [{}] {} (replay reduced by parent-side delta debugging)", f.signature, f.message);
+                                    violations.push((p, f.signature));
+                                }
+                            }
+                            None => {
+                                // the case cannot be judged by this check (it passes alone, or it was aborted by a
+                                // violation that belongs to another property): skip it and carry on behind it
+                                *total.labels.entry("case-skipped-after-process-death".into()).or_insert(0) += 1;
+                                let _ = &err_now;
                             }
                         }
-                        None => {
-                            println!("INCONCLUSIVE property={id}: shard {i} died ({st:?}) but the journaled case passes alone");
+                        if attempts > 12 || index == 0 {
+                            println!("INCONCLUSIVE property={id}: shard {i} keeps dying; giving up on it after {attempts} restarts");
                             infra_fail = true;
+                            break;
+                        }
+                        // resume the shard behind the blamed case
+                        let out_r = tmpdir.join(format!("shard-{i}-r{attempts}.json"));
+                        let o = std::process::Command::new(&exe)
+                            .arg(id)
+                            .arg("--tier")
+                            .arg(a.tier.name())
+                            .arg("--shard")
+                            .arg(format!("{i}/{nshards}"))
+                            .arg("--out")
+                            .arg(&out_r)
+                            .arg("--resume-after")
+                            .arg(index.to_string())
+                            .env("VERIF_SEED", seed.to_string())
+                            .stdout(std::process::Stdio::null())
+                            .stderr(std::process::Stdio::piped())
+                            .output();
+                        let Ok(o) = o else { break };
+                        match std::fs::read(&out_r).ok().and_then(|b| serde_json::from_slice::<Acc>(&b).ok()) {
+                            Some(r) => {
+                                total.evaluations += r.evaluations;
+                                total.sub_evals += r.sub_evals;
+                                total.nontrivial.extend(r.nontrivial);
+                                for (k, v) in r.labels {
+                                    *total.labels.entry(k).or_insert(0) += v;
+                                }
+                                for (k, (n, ex)) in r.known {
+                                    *known_seen.entry(k.clone()).or_insert(0) += n;
+                                    total.known.entry(k).or_insert((0, ex)).0 += n;
+                                }
+                                if let Some(f) = r.failure {
+                                    let p = write_replay(id, &f);
+                                    println!("shard {i} (resumed): minimal failing case [{}] {}", f.signature, f.message);
+                                    violations.push((p, f.signature));
+                                }
+                            }
+                            None => {
+                                st_now = format!("{:?}", o.status);
+                                err_now = String::from_utf8_lossy(&o.stderr).into_owned();
+                                journal = std::fs::read(out_r.with_extension("cur")).ok().and_then(|b| serde_json::from_slice::<Value>(&b).ok());
+                                if journal.is_none() {
+                                    println!("INCONCLUSIVE property={id}: resumed shard {i} died without a journaled case ({st_now})");
+                                    infra_fail = true;
+                                }
+                            }
                         }
                     }
                 } else {
@@ -896,7 +971,7 @@ fn parent_main<C: Check>(check: &C, a: &Args, tmpdir: &Path) -> i32 {
                         .stderr(std::process::Stdio::null())
                         .status();
                     let cur2 = out2.with_extension("cur");
-                    let case = std::fs::read(&cur2).ok().and_then(|b| serde_json::from_slice::<Value>(&b).ok());
+                    let case = std::fs::read(&cur2).ok().and_then(|b| serde_json::from_slice::<Value>(&b).ok()).map(|j| j.get("case").cloned().unwrap_or(j));
                     match (case, out2.exists()) {
                         (Some(case), false) => {
                             let verdict = eval_case_in(check, &case, tmpdir, true).ok().and_then(|o| o.fail);
